@@ -229,6 +229,8 @@ def run_pass(world, pspec, vector):
             stats["faults_fired"][fk[0]] += 1
             if fk[3] == "SimCancel":
                 stats["faults_fired"]["cancel"] = stats["faults_fired"].get("cancel", 0) + 1
+            if fk[3] == "Reenter":
+                stats["faults_fired"]["reenter"] = stats["faults_fired"].get("reenter", 0) + 1
         stats["ops"] += 1
         pool.append(val)
         outcomes[f"P:{j}"] = _outcome(val)
@@ -336,6 +338,8 @@ def run_pass(world, pspec, vector):
                 stats["faults_fired"][fk[0]] += 1
                 if fk[3] == "SimCancel":
                     stats["faults_fired"]["cancel"] = stats["faults_fired"].get("cancel", 0) + 1
+                if fk[3] == "Reenter":
+                    stats["faults_fired"]["reenter"] = stats["faults_fired"].get("reenter", 0) + 1
             results[k][i] = val
             written = ops.written_refs(op)
             wpriv = [v_ for t_, v_ in written if t_ == "m" and v_ in privs[k]]
